@@ -431,6 +431,10 @@ var hostileStrings = []hostile{
 	{"escape-lookalike", `\n`}, {"escape-lookalike", `\u00e9`}, {"escape-lookalike", `\\`}, {"escape-lookalike", `a\tb`},
 	{"json-looking", `42`}, {"json-looking", `true`}, {"json-looking", `null`}, {"json-looking", `[1,2]`}, {"json-looking", `{"a":"b"}`}, {"json-looking", `"q"`},
 	{"plain", `a`}, {"plain", "ordinary text"},
+	// look-alikes of the well-known constants: equal to them under the IRI equivalence, not as strings
+	{"constant-lookalike", "https://www.w3.org/ns/activitystreams"}, {"constant-lookalike", "https://www.w3.org/ns/activitystreams#Followers"}, {"constant-lookalike", "https://www.w3.org/ns/activitystreams#public"},
+	{"constant-lookalike", "HTTPS://WWW.W3.ORG/ns/activitystreams#Public"}, {"constant-lookalike", "http://www.w3.org/ns/activitystreams#Public"}, {"constant-lookalike", "https://www.w3.org/ns/activitystreams/#Public"},
+	{"constant-lookalike", "https://w3id.org/security/v1#x"}, {"constant-lookalike", "as:Public"}, {"constant-lookalike", "Public"},
 }
 
 // stringPos is a string-bearing position of a struct kind.
